@@ -30,15 +30,21 @@ func init() {
 		Phases: func(tier string, seed int64) []Phase {
 			return []Phase{{Name: "faults", Run: c07Faults, Crash: c07Crash}, {Name: "emfile", Run: c07Emfile}, {Name: "tls-stalled-handshakes", Run: c07TLSStalled}}
 		},
-		MinObserved: []string{"faults_injected", "bystander_ops_verified", "bystander_ops_overlapping_or_after_a_fault", "new_connection_probes", "emfile_accept_failures_provoked", "probes_served_while_a_handshake_is_stalled"},
+		MinObserved: []string{"faults_injected", "bystander_ops_verified", "bystander_ops_overlapping_or_after_a_fault", "new_connection_probes", "emfile_accept_failures_provoked", "probes_served_while_a_handshake_is_stalled", "mutated_frames_fed"},
 	})
 }
 
 var c07Kinds = []string{
 	"panic-bind", "panic-search", "panic-modify", "panic-add", "panic-delete", "panic-extended",
 	"panic-starttls", "panic-unbind", "panic-default",
-	"reset-midframe", "truncated-fin", "malformed", "former-decode-panic", "stop-reading-then-reset", "stalled-reader-held", "storm-of-panics",
+	"reset-midframe", "truncated-fin", "malformed", "former-decode-panic", "stop-reading-then-reset", "stalled-reader-held", "storm-of-panics", "mutated-frames",
 }
+
+var (
+	c07MutOnce sync.Once
+	c07Mut     [][]byte
+	c07MutNext atomic.Int64
+)
 
 var c07Placements = []string{"alone", "after-requests", "siblings-running", "double", "pipelined-after"}
 
@@ -255,6 +261,36 @@ func c07Inject(c *Ctx, srv *Srv, cs c07Case, r *Rand) {
 		cl.Send(pick(r, inputs))
 		cl.C.SetReadDeadline(time.Now().Add(300 * time.Millisecond))
 		sber.ReadFrame(cl.br)
+	case cs.Kind == "mutated-frames":
+		// a slice of the single-point shape/type mutations of every canonical request (the C02 corpus): should any of
+		// them make gldap's own code panic, that must stay this connection's problem
+		c07MutOnce.Do(func() {
+			// structural mutations (children dropped, doubled, swapped, truncated, extended, emptied; tag, class and
+			// length corruptions) of the canonical requests without controls and of the long-list ones
+			for _, cn := range canonicals() {
+				if !strings.HasSuffix(cn.Name, "+none") && !strings.Contains(cn.Name, "+lists-of-9") {
+					continue
+				}
+				for _, m := range mutationsFor(cn.Tree, 0) {
+					if b, ok := mutate(cn.Tree, nil, m); ok && c02Feedable(b) {
+						c07Mut = append(c07Mut, b)
+					}
+				}
+			}
+		})
+		cl.Send(c07Mut[int(c07MutNext.Add(1))%len(c07Mut)])
+		cl.C.(*net.TCPConn).CloseWrite()
+		cl.ReadToEOF(2 * time.Second)
+		for k := 0; k < 300; k++ {
+			if mc, err := dialRaw(srv.Addr, nil); err == nil {
+				mc.Send(c07Mut[int(c07MutNext.Add(1))%len(c07Mut)])
+				mc.C.(*net.TCPConn).CloseWrite()
+				mc.ReadToEOF(2 * time.Second)
+				mc.Close()
+				c.Count("mutated_frames_fed", 1)
+			}
+		}
+		c.Max("max/mutated_frame_corpus", int64(len(c07Mut)))
 	case cs.Kind == "storm-of-panics":
 		// hundreds of recovered handler panics, on this connection and on others: whatever a panic leaks must not add up
 		n := 80
